@@ -52,7 +52,7 @@ def cases(seed, tier):
     out = [{'seed': seed, 'i': i, 'kind': 'plant', 'tier': tier} for i in range(N_PLANT[tier])]
     nm = 60 if tier == 'quick' else 1500
     out += [{'seed': seed, 'i': i, 'kind': 'missing', 'tier': tier} for i in range(nm)]
-    nd = 136 if tier == 'quick' else 850
+    nd = 200 if tier == 'quick' else 1250
     out += [{'seed': seed, 'i': i, 'kind': 'directed', 'tier': tier} for i in range(nd)]
     return out
 
@@ -90,7 +90,7 @@ def slots(ast):
         op = n[0]
         if op in ('num', 'bool', 'beta', 'var', 'draws', 'rv', 'linutil'):
             return
-        if op in ('neg', 'exp', 'log', 'logzero', 'sin', 'cos', 'ncdf', 'powc', 'belongs', 'mc', 'panel'):
+        if op in ('neg', 'exp', 'log', 'logzero', 'sin', 'cos', 'ncdf', 'powc', 'belongs', 'mc', 'panel', 'integrate', 'derive'):
             out.append((path + [1], op, 'child'))
             walk(n[1], path + [1])
         elif op in ('add', 'sub', 'mul', 'div', 'pow', 'min', 'max', 'and', 'or', 'eq', 'ne', 'le', 'ge', 'lt', 'gt'):
@@ -207,10 +207,13 @@ def _attempt(payload):
             out['refused'] = refused
             if refused is not None and refused[0] != 'RuntimeError':
                 after = np.asarray(twin.get_value_c(database=db, prepare_ids=True), float)
-                out['twin_same_after_refusal'] = bool(np.array_equal(before, after, equal_nan=True))
+                has_draws = '"draws"' in json.dumps(payload['twin_spec']['ast'])  # fresh random draws at every evaluation
+                out['twin_same_after_refusal'] = True if has_draws else bool(np.array_equal(before, after, equal_nan=True))
+                if has_draws:
+                    before = after
                 after2 = np.asarray(twin.get_value_and_derivatives(database=db, prepare_ids=True, gradient=False, hessian=False,
                                                                    bhhh=False, aggregation=False).functions, float)
-                out['twin_same_after_refusal'] = out['twin_same_after_refusal'] and bool(np.array_equal(before, after2, equal_nan=True))
+                out['twin_same_after_refusal'] = out['twin_same_after_refusal'] and (has_draws or bool(np.array_equal(before, after2, equal_nan=True)))
             out['value'] = before.tolist()
         elif entry == 'BIOGEME_secondary_formula':
             # the faulty formula is not the log likelihood but another entry of the dictionary of formulas
@@ -394,6 +397,23 @@ def _plant_case(case, rec):
     base['shared'] = []
     base['one_beta_object'] = False
     ref = j['value']
+    # the valid formula may sit inside a Monte-Carlo integral, a numerical integral or a derivative operator, so that
+    # faults are also planted below those operators
+    wrap = rr.random()
+    wrapped = 'none'
+    if wrap < 0.12:
+        base['ast'] = ['mc', ['add', base['ast'], ['mul', ['num', 0.1], ['draws', 'xi_inside', 'NORMAL']]]]
+        wrapped = 'mc'
+    elif wrap < 0.22:
+        base['ast'] = ['integrate', ['mul', ['sin', base['ast']], ['exp', ['neg', ['mul', ['rv', 'omega_inside'], ['rv', 'omega_inside']]]]],
+                       'omega_inside']
+        wrapped = 'integrate'
+    elif wrap < 0.30:
+        free_used = sorted(b for b in _betas_in(base['ast']) if base['betas'][b][1] == 0)
+        if free_used and not (exprs.ops_in(base['ast'], []) & {'belongs', 'and', 'or', 'eq', 'ne', 'le', 'ge', 'lt', 'gt', 'min', 'max'}):
+            base['ast'] = ['derive', base['ast'], rr.choice(free_used)]
+            wrapped = 'derive'
+    rec.c('wrapped_' + wrapped)
     # ---- the valid twin must be accepted on every entry point -----------------------------
     has_elementary = bool(_betas_in(base['ast'])) or '"var"' in json.dumps(base['ast'])
     for entry in ('get_value_c', 'BIOGEME', 'simulate', 'create_function', 'prepared_ids'):
@@ -402,7 +422,11 @@ def _plant_case(case, rec):
         res = attempt(base, entry)
         rec.ev()
         rec.c('valid_twin_runs')
-        if res.get('outcome') != 'ok':
+        if res.get('outcome') != 'ok' and wrapped != 'none' and not res.get('biogeme_error'):
+            rec.c('wrapped_twin_numerical_failure_not_judged')  # e.g. the engine cannot integrate / differentiate it
+            if entry == 'get_value_c':
+                return
+        elif res.get('outcome') != 'ok':
             rec.violation(f'C12/valid-specification-rejected-{entry}',
                           f'valid formula rejected: {res.get("type")}: {str(res.get("msg"))[:300]} {str(res)[:200] if "outcome" not in res else ""}',
                           {'spec': base})
@@ -414,6 +438,8 @@ def _plant_case(case, rec):
     for k in range(n_plants):
         picks.append((kinds[k % len(kinds)], rr.choice(sl)))
     for kind, (path, parent, slot) in picks:
+        if (kind == 'draws_outside_mc' and wrapped == 'mc') or (kind == 'rv_outside_integrate' and wrapped == 'integrate'):
+            continue
         node, names, extra_betas = _fault_node(kind, base, rr)
         fs = dict(base)
         fs['betas'] = dict(base['betas'])
@@ -812,6 +838,59 @@ def _directed_child(payload):
                      'cmp': lambda: ex.log(pt) * (outv > 0), 'elem': lambda: ex.Elem({0: ex.log(pt), 1: ex.log(pt) * 2}, outv > 1)}[wrap]()
             bg = BIOGEME(db, e, parameters=Parameters())
             out['value'] = [float(bg.calculate_likelihood([0.2], scaled=False))]
+        elif k.startswith('dup_') or k.startswith('placement_'):
+            db = dbm.Database('d', df)
+            X, Y = ex.Variable('x'), ex.Variable('y')
+            dens = lambda om: ex.exp(-om * om)
+            if k == 'dup_ok':
+                e = ex.MonteCarlo(b * X + ex.bioDraws('xi', 'NORMAL')) + ex.Integrate(dens(ex.RandomVariable('om')) * ex.exp(b * Y), 'om')
+            elif k == 'dup_beta_draws':
+                nm = rr.choice(['xi', 'b_dir'])
+                e = ex.MonteCarlo(ex.Beta(nm, 0.3, None, None, rr.choice([0, 1])) * X + ex.bioDraws(nm, 'NORMAL'))
+                out['names'] = [nm]
+            elif k == 'dup_beta_rv':
+                nm = 'om'
+                e = ex.Integrate(dens(ex.RandomVariable(nm)) * ex.exp(ex.Beta(nm, 0.3, None, None, rr.choice([0, 1])) * Y), nm)
+                out['names'] = [nm]
+            elif k == 'dup_draws_column':
+                nm = rr.choice(['x', 'y'])
+                e = ex.MonteCarlo(b * X + ex.bioDraws(nm, 'NORMAL'))
+                out['names'] = [nm]
+            elif k == 'dup_rv_column':
+                nm = rr.choice(['x', 'y'])
+                e = ex.Integrate(dens(ex.RandomVariable(nm)) * ex.exp(b * Y), nm)
+                out['names'] = [nm]
+            elif k == 'dup_draws_rv':
+                nm = 'shared_name'
+                e = ex.MonteCarlo(b * X + ex.bioDraws(nm, 'NORMAL')) + ex.Integrate(dens(ex.RandomVariable(nm)), nm)
+                out['names'] = [nm]
+            elif k == 'placement_draws_beside_montecarlo':
+                e = ex.MonteCarlo(b * X + ex.bioDraws('xi', 'NORMAL')) + rr.choice([
+                    lambda: ex.bioDraws('d_out', 'UNIFORM') * Y,
+                    lambda: ex.Elem({0: b, 1: ex.bioDraws('d_out', 'UNIFORM')}, X > 0),
+                    lambda: ex.bioMultSum({1: Y, 2: ex.bioDraws('d_out', 'UNIFORM')}),
+                    lambda: ex.ConditionalSum([ex.ConditionalTermTuple(condition=ex.bioDraws('d_out', 'UNIFORM') > 0, term=Y)]),
+                ])()
+                out['names'] = ['d_out']
+            elif k == 'placement_rv_beside_integral':
+                e = ex.Integrate(dens(ex.RandomVariable('om')) * ex.exp(b * Y), 'om') + rr.choice([
+                    lambda: ex.RandomVariable('om_out') * Y,
+                    lambda: ex.Elem({0: b, 1: ex.RandomVariable('om_out')}, X > 0),
+                    lambda: ex.BelongsTo(ex.RandomVariable('om_out'), {1, 2}) * b,
+                    lambda: ex.ConditionalSum([ex.ConditionalTermTuple(condition=X > 0, term=ex.RandomVariable('om_out'))]),
+                ])()
+                out['names'] = ['om_out']
+            if rr.random() < 0.5:
+                v = e.get_value_c(database=db, prepare_ids=True, number_of_draws=4)
+                out['value'] = np.asarray(v, float).tolist()
+            else:
+                from biogeme.biogeme import BIOGEME
+                from biogeme.parameters import Parameters
+
+                p_ = Parameters()
+                p_.set_value('number_of_draws', 4, 'MonteCarlo')
+                bg = BIOGEME(db, e, parameters=p_)
+                out['value'] = [float(bg.calculate_likelihood([0.2] * len(bg.free_beta_names), scaled=False))]
         elif k.startswith('linutil_missing'):
             code = 99999
             df.loc[1, 'x'] = code
@@ -838,7 +917,9 @@ def _directed_child(payload):
 
 DIRECTED = ['nl_ok', 'nl_overlap', 'nl_overlap_nonadjacent', 'nl_outside', 'cnl_ok', 'cnl_outside', 'data_ok', 'data_nonnumeric', 'data_nan',
             'data_empty', 'flags_ok', 'flags_hessian_without_gradient', 'flags_bhhh_without_gradient', 'panel_ok',
-            'panel_variable_outside_trajectory', 'linutil_missing_value', 'linutil_missing_likelihood']
+            'panel_variable_outside_trajectory', 'linutil_missing_value', 'linutil_missing_likelihood',
+            'dup_ok', 'dup_beta_draws', 'dup_beta_rv', 'dup_draws_column', 'dup_rv_column', 'dup_draws_rv',
+            'placement_draws_beside_montecarlo', 'placement_rv_beside_integral']
 
 
 def _directed_case(case, rec):
